@@ -52,7 +52,7 @@ STR_METHODS = {"lower", "upper", "strip", "lstrip", "rstrip", "startswith", "end
                "rpartition", "isidentifier", "isupper", "islower", "zfill", "ljust", "rjust", "center",
                "isdigit", "isalpha", "isalnum", "isspace", "split", "rsplit", "join", "count", "index", "expandtabs",
                "splitlines", "title", "format"}
-LIST_METHODS = {"append", "pop", "insert", "reverse", "index", "count", "extend"}
+LIST_METHODS = {"append", "pop", "insert", "reverse", "index", "count", "extend", "remove", "sort", "clear", "copy"}
 MATCH_METHODS = {"group", "start", "end", "groups", "groupdict", "span"}
 
 
@@ -189,6 +189,17 @@ class Evaluator:
                 else:
                     raise Unsupported("f-string format")
             return "".join(out)
+        if isinstance(node, ast.SetComp) and len(node.generators) == 1:
+            return set(self.ev(ast.ListComp(elt=node.elt, generators=node.generators), env))
+        if isinstance(node, ast.DictComp) and len(node.generators) == 1:
+            g = node.generators[0]
+            out = {}
+            for v in self.ev(g.iter, env):
+                env2 = dict(env)
+                self.assign(g.target, v, env2)
+                if all(self.ev(c, env2) for c in g.ifs):
+                    out[self.ev(node.key, env2)] = self.ev(node.value, env2)
+            return out
         if isinstance(node, (ast.GeneratorExp, ast.ListComp)) and len(node.generators) == 1 and not node.generators[0].is_async:
             g = node.generators[0]
             out = []
@@ -265,9 +276,11 @@ class Evaluator:
                     raise PyRaise("ValueError", str(err))
             if isinstance(recv, list) and m in LIST_METHODS:
                 try:
-                    return getattr(recv, m)(*args)
+                    return getattr(recv, m)(*args, **kw)
                 except IndexError as err:
                     raise PyRaise("IndexError", str(err))
+                except ValueError as err:
+                    raise PyRaise("ValueError", str(err))
             if isinstance(recv, re.Pattern) and m in ("match", "search", "fullmatch", "findall", "split", "sub", "finditer"):
                 res_ = getattr(recv, m)(*args, **kw)
                 return list(res_) if m == "finditer" else res_
@@ -440,6 +453,22 @@ class Evaluator:
                     env[nm] = self.g[nm]
                 else:
                     raise Unsupported("import of %s" % nm)
+        elif isinstance(s, ast.Delete):
+            for t in s.targets:
+                if isinstance(t, ast.Subscript) and not isinstance(t.slice, ast.Slice):
+                    base = self.ev(t.value, env)
+                    if not isinstance(base, (dict, list)):
+                        raise Unsupported("del on %s" % type(base).__name__)
+                    try:
+                        del base[self.ev(t.slice, env)]
+                    except KeyError as err:
+                        raise PyRaise("KeyError", str(err))
+                    except IndexError as err:
+                        raise PyRaise("IndexError", str(err))
+                elif isinstance(t, ast.Name):
+                    env.pop(t.id, None)
+                else:
+                    raise Unsupported("del target")
         elif isinstance(s, ast.Raise):
             if s.exc is None:
                 cur = getattr(self, "_handling", None)
